@@ -167,9 +167,11 @@ def finalize(results, counters, tier, seed):
         inc.append("too few graphs checked: %r" % mon)
     if mon.get("hoisted-nodes", 0) == 0:
         inc.append("no hoisted node was ever observed")
-    # only strata whose count is fixed by construction or large for every seed
+    # only strata whose count is fixed by construction or large for every seed (the single
+    # metrics families get 3-4 specs each here and some are refused: C11-C14 require them,
+    # with ~47 specs per family; requiring them here made seed 2 inconclusive)
     miss = [t for t in ("occ-with-follower", "flatten-occupancy", "double-flatten",
-                        "m-merger-static", "m-merger-dynamic", "m-partitioned", "st-coord",
+                        "metrics", "st-coord",
                         "partitioned", "cascade2", "both-dims-partitioned", "reread-input",
                         "flatten-lookup")
             if counters.get("strata_compiled", {}).get(t, 0) == 0]
